@@ -133,3 +133,5 @@ def check(ctx):
     _check_own(ctx)
     from .engine import import_rules
     import_rules(ctx, "c07", {"stored-count-wins"})
+    # the persisted item count is what a reopened map reports as len() and what bounds its iterators
+    import_rules(ctx, "c05", {"count-writers", "count-step", "count-arm"})
